@@ -259,9 +259,15 @@ def r13ab_rep_structure(ctx):
                 names = [U(e) for e in n.targets[0].elts]
                 for r_ in walk_no_nested(f.node):
                     if isinstance(r_, ast.Return) and isinstance(
-                            r_.value, ast.Call) and [
-                                U(a) for a in r_.value.args] == names:
-                        okorder = True
+                            r_.value, ast.Call):
+                        cs = ctx.in_func(f, r_).callees_of_call(r_.value)
+                        b = ctx.bound_args(f, r_.value)
+                        if len(cs) == 1 and [
+                                U(b[p]) if p in b else None
+                                for p in cs[0].call_params] == names:
+                            okorder = True
+                        elif [U(a) for a in r_.value.args] == names:
+                            okorder = True
         rep.check(okc and okorder, rule, ctx.fkey(f, None, "composition"),
                   f.loc(), "%s = %s after %s, tuple passed in order" % (
                       name, second, first),
